@@ -34,7 +34,9 @@ def gen(tier, rng):
     g = 0
     geoms = [(8, 6, 4, 3, None, 1), (9, 7, 4, 5, None, 1), (5, 5, 11, 9, None, 1), (12, 10, 3, 3, (2, 3, 17, 13), 2),
              (7, 9, 7, 4, None, 1), (6, 6, 6, 6, (1, 1, 4, 4), 1), (10, 10, 5, 5, None, 1), (16, 4, 2, 2, None, 1),
-             (3, 3, 1, 1, None, 1), (1, 1, 4, 3, None, 1), (20, 20, 3, 3, None, 1)]
+             (3, 3, 1, 1, None, 1), (1, 1, 4, 3, None, 1), (20, 20, 3, 3, None, 1),
+             # the copy path (same size): portrait, landscape, an integer crop taller than wide
+             (3, 7, 3, 7, None, 1), (7, 2, 7, 2, None, 1), (6, 11, 2, 5, (1, 3, 2, 5), 1)]
     algs = [("nearest", "Box", 1), ("conv", "Lanczos3", 1), ("conv", "Box", 1), ("conv", "Bilinear", 1), ("interp", "CatmullRom", 1),
             ("ss", "Lanczos3", 1), ("ss", "Bilinear", 2), ("ss", "Hamming", 3), ("ss", "Gaussian", 4)]
     pts = rz.ALL_PT
